@@ -3,6 +3,7 @@
 From Coq Require Import List Bool Arith.
 Import ListNotations.
 From Lime Require Import Base.Res Life.Handler Life.HandlerFacts Life.Server Life.ServerFacts Corr.C18 Corr.C18Facts.
+From Lime Require Import Life.Startup Life.StartupFacts.
 
 (* Under every schedule of acceptors, consumer, Close and ListenAndServe, for any number of
    listeners, pending connections and queue size: the repaired code never panics (the queue
@@ -67,6 +68,21 @@ Theorem C18_handlers_between_callbacks : forall a b,
   count_ev EvEst a = 1 /\ count_ev EvClosed a = 0 /\ count_ev EvFin a = 0.
 Proof. exact accepted_order. Qed.
 Print Assumptions C18_handlers_between_callbacks.
+
+(* Start-up: whatever the timing of Close relative to ListenAndServe's loop over its listeners (any
+   number and mix of socket and in-process listeners, every schedule), once ListenAndServe has
+   returned no listener is left open, and it only returns once the server was closed.  The tree
+   as found is refuted: a socket listener started after Close had skipped it stays open. *)
+Theorem C18_startup_orderly : forall kinds (sched : list ulabel),
+  let s := urun true (uinit kinds) sched in
+  u_main s = UReturned -> none_open s = true /\ u_cancelled s = true.
+Proof. exact startup_orderly. Qed.
+Print Assumptions C18_startup_orderly.
+
+Theorem C18_startup_as_found_refuted :
+  exists sched, let s := urun false (uinit [LInproc; LSocket]) sched in settled s = true /\ none_open s = false.
+Proof. exact as_found_leaves_a_listener_open. Qed.
+Print Assumptions C18_startup_as_found_refuted.
 
 (* The tree as found is refuted by concrete schedules (each replayed against the real code
    before the repair): the consumer receives nil from the closed queue and panics; an acceptor
